@@ -268,6 +268,21 @@ fn apply(st: &mut State, step: &Step, cell: &mut Option<u64>) -> Result<StepOut,
                 vcheck!(f.optional_present == mask, "layout.optional_words", family_name(family), "{} object built from an implementor enabling {:#b}: optional vtable words present (name order, translated) {:#b}", family_name(family), mask, f.optional_present);
                 counts.push("probe.layout_checked".into());
             }
+            // C04(b): the container follows the vtable words as instance, context, temporaries — for a
+            // boxed object with the reference-counted context: {instance, drop_fn}, then the arc whose
+            // first word is the address of the context payload
+            if pair.cont == 0 && is_arc(pair.ctxsel) && !cfg!(miri) {
+                let words = pair.a.raw_words();
+                let nv = pair.a.n_vtbl_words();
+                let ctx_ptr = st.ctx_weak.as_ptr() as usize;
+                if words.len() >= nv + 5 {
+                    vcheck!(words[..nv.min(1)].iter().all(|w| *w != 0), "layout.container_words", family_name(family), "first vtable word of a fresh object is null");
+                    vcheck!(words[nv] != 0 && words[nv] != ctx_ptr && words[nv + 1] != 0 && words[nv + 2] == ctx_ptr, "layout.container_words", family_name(family),
+                        "{} object: after {} vtable word(s) the container is not laid out as {{instance, drop function}}, context, temporaries (the context payload's address is at word {:?}, expected at word {})",
+                        family_name(family), nv, words.iter().position(|w| *w == ctx_ptr), nv + 2);
+                    counts.push("probe.container_words_checked".into());
+                }
+            }
             counts.push(format!("create.{}", family_name(family)));
             counts.push(format!("container.{}", ["box", "mut", "ref", "arcsome"][pair.cont]));
             counts.push(format!("context.{}", ["none", "arc", "plain", "arc_opaque"][pair.ctxsel]));
